@@ -73,6 +73,9 @@ theorem fastEnv_eq : fastEnv = genEnv := by
 theorem fastEnvPreFix_eq : fastEnvPreFix = genEnvPreFix := by
   unfold fastEnvPreFix genEnvPreFix; rw [fastEnv_eq]
 
+theorem fastEnvPreFix2_eq : fastEnvPreFix2 = genEnvPreFix2 := by
+  unfold fastEnvPreFix2 genEnvPreFix2; rw [fastEnv_eq]
+
 /-! ### the finite families -/
 
 def upA (c : Nat) : Nat := if 97 ≤ c ∧ c ≤ 122 then c - 32 else c
@@ -123,5 +126,16 @@ def oneListed (q : Str) (r : Option (List MR)) : Bool :=
 def bothOK (E : Env) : Bool :=
   (alts true).all fun t => (alts false).all fun f => seps.all fun sp =>
     oneListed (t ++ sp ++ f) (recognise E (t ++ sp ++ f)) && oneListed (f ++ sp ++ t) (recognise E (f ++ sp ++ t))
+
+/-- two listed expressions of the same polarity: one entity, a listed expression of that polarity at its own place -/
+def samePolarityOK (E : Env) : Bool :=
+  [true, false].all fun b => (alts b).all fun w1 => (alts b).all fun w2 =>
+    oneListed (w1 ++ [32] ++ w2) (recognise E (w1 ++ [32] ++ w2))
+
+/-- the same expression two and three times (`no no`, `yes yes yes`) -/
+def repeatsOK (E : Env) : Bool :=
+  [true, false].all fun b => (alts b).all fun w =>
+    oneListed (w ++ [32] ++ w) (recognise E (w ++ [32] ++ w)) &&
+    oneListed (w ++ [32] ++ w ++ [32] ++ w) (recognise E (w ++ [32] ++ w ++ [32] ++ w))
 
 end RTV.Choice
